@@ -1,6 +1,6 @@
 from typing import Callable
 
-from typedpy.structures import Structure, ImmutableField, Field, ClassReference
+from typedpy.structures import Structure, ImmutableField, Field
 from typedpy.commons import wrap_val
 from .array import has_multiple_items
 
@@ -93,10 +93,6 @@ class Set(
         items = self.items
         if items is not None:
             if isinstance(items, Field):
-                if isinstance(items, ClassReference):
-                    serializer = items._ty.serialize
-                    self._serialize = lambda value: [serializer(x) for x in value]
-                    return self._serialize(value)
                 serialize = items.serialize
                 self._serialize = lambda value: [serialize(x) for x in value]
                 return self._serialize(value)
